@@ -51,6 +51,41 @@ Theorem C09_headers_keymgmt_roundtrip : forall h o,
 Proof. exact keymgmt_roundtrip. Qed.
 Print Assumptions C09_headers_keymgmt_roundtrip.
 
+(* Range.  UTC ranges (clock=...;time=...) round-trip unconditionally: *)
+Theorem C09_headers_range_roundtrip_utc : forall st en tm o,
+  is_perm o -> wf_utc st = true -> opt_all wf_utc en = true -> opt_all wf_utc tm = true ->
+  range_unmarshal_with o (range_marshal (mkRange (RUtc st en) tm)) = Ok (mkRange (RUtc st en) tm).
+Proof. exact range_roundtrip_utc. Qed.
+Print Assumptions C09_headers_range_roundtrip_utc.
+
+(* every Range value round-trips, in every iteration order, as soon as each of its SMPTE / NPT / UTC time values
+   survives its own text codec ([codec_ok]: parse (print x) = x, printed with digits : . T Z only, not empty) *)
+Theorem C09_headers_range_roundtrip_partial : forall h o,
+  is_perm o -> value_codec_ok (r_value h) -> opt_all wf_utc (r_time h) = true ->
+  range_unmarshal_with o (range_marshal h) = Ok h.
+Proof. exact range_roundtrip_partial. Qed.
+Print Assumptions C09_headers_range_roundtrip_partial.
+
+(* SMPTE times (whole seconds, frame and sub-frame below 2^32) survive their codec, given the float64 fact that
+   Duration.Seconds() of a whole-second duration converts back to the number of seconds (checked by the harness on
+   every SMPTE value; not proved here - what is missing for a full theorem) *)
+Theorem C09_headers_smpte_codec_partial : forall t,
+  wf_smpte t = true ->
+  to_int64 (seconds_of (Z.to_N (sm_time t))) = (sm_time t / 1000000000)%Z ->
+  codec_ok smpte_unmarshal smpte_marshal t.
+Proof. exact smpte_codec_partial. Qed.
+Print Assumptions C09_headers_smpte_codec_partial.
+
+(* NPT times: under Go's documented contract ParseFloat (FormatFloat x) = x, a duration d >= 0 is re-parsed as
+   int64 (float64 (d.Seconds()) * 1e9) - a truncation - so it survives iff that equals d (F8: it does not for
+   1.001 s, see C09_headers_npt_roundtrip_refuted below) *)
+Theorem C09_headers_npt_time_partial : forall d neg m e,
+  (0 <= d)%Z -> seconds_of (Z.to_N d) = DFin neg m e -> neg = false ->
+  parse_float (format_float (DFin neg m e)) = Some (DFin neg m e) ->
+  npt_unmarshal (npt_marshal d) = Some (to_int64 (dmul_int (DFin neg m e) E9)).
+Proof. exact npt_time_partial. Qed.
+Print Assumptions C09_headers_npt_time_partial.
+
 (* ================= determinism: the result (value or failure) does not depend on the map iteration order ======= *)
 Theorem C09_headers_session_deterministic : forall s o1 o2,
   is_perm o1 -> is_perm o2 -> session_unmarshal_with o1 s = session_unmarshal_with o2 s.
@@ -137,6 +172,14 @@ Proof. split; vm_compute; reflexivity. Qed.
 (* "RTP/AVP;RTP/AVP/TCP" violates the hypothesis of the partial theorem *)
 Example C09_ex_conflict : transport_no_conflict f7_transport = false /\ range_no_conflict f7_range = false.
 Proof. split; vm_compute; reflexivity. Qed.
+(* 1.5 s and 2020-02-29T23:59:59Z survive their codecs (so the hypotheses of the partial Range theorem are satisfiable) *)
+Example C09_ex_range_codecs :
+  npt_unmarshal (npt_marshal 1500000000%Z) = Some 1500000000%Z /\
+  wf_utc (mkUtc 2020 2 29 23 59 59 0) = true /\ wf_utc (mkUtc 2021 2 29 0 0 0 0) = false /\
+  wf_smpte (mkSmpte 36420000000000%Z 5 1) = true /\
+  to_int64 (seconds_of (Z.to_N 36420000000000%Z)) = (36420000000000 / 1000000000)%Z /\
+  smpte_marshal (mkSmpte 36420000000000%Z 5 1) = [49;48;58;48;55;58;48;48;58;48;53;46;48;49].
+Proof. vm_compute. repeat split. Qed.
 Example C09_ex_session : wf_session (mkSession [65;51] (Some 60)) = true
   /\ session_marshal (mkSession [65;51] (Some 60)) = [65;51;59;116;105;109;101;111;117;116;61;54;48].
 Proof. split; vm_compute; reflexivity. Qed.
